@@ -344,11 +344,11 @@ def pzero (k m : Nat) (E : List Nat) (s : Nat) : Nat :=
   E.foldl (fun s e => pset k m s (bufOfK k e) 0) s
 
 theorem rep_pzero (T : XorTable) (E : List Nat) {s : Nat} {x : XState Nat} (r : Rep T.k T.m s x) :
-    Rep T.k T.m (pzero T.k T.m E s) (eraseBufs 0 T E x) := by
+    Rep T.k T.m (pzero T.k T.m E s) (xorEraseBufs 0 T E x) := by
   induction E generalizing s x with
   | nil => exact r
   | cons e E ih =>
-    simp only [pzero, eraseBufs, List.foldl_cons] at ih ⊢
+    simp only [pzero, xorEraseBufs, List.foldl_cons] at ih ⊢
     apply ih
     rw [bufOfK_eq]
     exact rep_pset r _ (by decide)
@@ -403,8 +403,8 @@ def okDecode (T : XorTable) (G : Nat) (E : List Nat) : Bool :=
 theorem okDecode_sound {T : XorTable} (hs : smallB T = true) {E : List Nat}
     (h : okDecode T (goalP T) E = true) :
     ∃ ops, T.planDecode E = .ok ops ∧
-      (runOps (· ^^^ ·) 0 ops (eraseBufs 0 T E T.symGoal)).data = T.symGoal.data ∧
-      (runOps (· ^^^ ·) 0 ops (eraseBufs 0 T E T.symGoal)).parity = T.symGoal.parity := by
+      (runOps (· ^^^ ·) 0 ops (xorEraseBufs 0 T E T.symGoal)).data = T.symGoal.data ∧
+      (runOps (· ^^^ ·) 0 ops (xorEraseBufs 0 T E T.symGoal)).parity = T.symGoal.parity := by
   unfold okDecode at h
   split at h
   · next ops hp =>
@@ -451,11 +451,11 @@ def okRecon (T : XorTable) (G : Nat) (E : List Nat) (dest : Nat) : Bool :=
 theorem okRecon_sound {T : XorTable} (hs : smallB T = true) {E : List Nat} {dest : Nat}
     (hdest : dest < T.k + T.m)
     (hdec : ∃ ops, T.planDecode E = .ok ops ∧
-      (runOps (· ^^^ ·) 0 ops (eraseBufs 0 T E T.symGoal)).data = T.symGoal.data ∧
-      (runOps (· ^^^ ·) 0 ops (eraseBufs 0 T E T.symGoal)).parity = T.symGoal.parity)
+      (runOps (· ^^^ ·) 0 ops (xorEraseBufs 0 T E T.symGoal)).data = T.symGoal.data ∧
+      (runOps (· ^^^ ·) 0 ops (xorEraseBufs 0 T E T.symGoal)).parity = T.symGoal.parity)
     (h : okRecon T (goalP T) E dest = true) :
     ∃ ops, T.planReconOne E dest = .ok ops ∧
-      (runOps (· ^^^ ·) 0 ops (eraseBufs 0 T E T.symGoal)).get 0 (T.bufOf dest)
+      (runOps (· ^^^ ·) 0 ops (xorEraseBufs 0 T E T.symGoal)).get 0 (T.bufOf dest)
         = T.symGoal.get 0 (T.bufOf dest) := by
   rw [planReconOne_eq]
   unfold okRecon at h
